@@ -3,7 +3,7 @@
   association-list update `setAssoc`, and the projection lemmas of the `NetSt` setters.
   Helper lemmas live in the namespace `SimVerif.HL` (handlers / lifetimes).
 -/
-import SimVerif.Tcp
+import SimVerif.HandlerSys
 import SimVerif.Resolver
 
 namespace SimVerif
